@@ -47,12 +47,12 @@ TExport ==
      IN /\ ev' = [kind |-> "export", route |-> r, olds |-> Trace[l].olds, wd |-> Trace[l].wd, obs |-> o,
                    peer |-> t, to |-> Trace[l].to]
         (* binding: the path the harness built projects back to the abstract route *)
-        /\ Assert(Trace[l].to # 1 \/ (o.before.attrs = Attrs(r) /\ ~o.before.wd),
+        /\ Assert(Trace[l].to # 1 \/ (StoredIs(o.before.attrs, r) /\ ~o.before.wd),
                   <<"harness built a path that does not project to the route", ctx.tid>>)
         /\ Assert(o.adv \in {"yes", "no", "withdraw"}, <<"unexpected number of produced paths", ctx.tid>>)
         (* distinct non-trivial cases: something was sent (attribute rules exercised), or the
            route was one that must not be sent (loop-prevention rules exercised) *)
-        /\ Assert(Trace[l].to # 1 \/ \A i \in DOMAIN o.oldbefore : o.oldbefore[i].attrs = Attrs(Trace[l].olds[i]),
+        /\ Assert(Trace[l].to # 1 \/ \A i \in DOMAIN o.oldbefore : StoredIs(o.oldbefore[i].attrs, Trace[l].olds[i]),
                   <<"harness built an old path that does not project to its route", ctx.tid>>)
         /\ NoteIf(o.adv = "yes" \/ ~MayAdvertise(r, t, ctx.local), <<ctx.tid, l>>)
   /\ UNCHANGED <<ctx, ribs>>
@@ -93,9 +93,9 @@ C09_MayAdvertise ==
    capacity of every attribute slice) *)
 C09_StoredUnchanged ==
   IsExport => /\ ev.obs.after = ev.obs.before
-              /\ ev.obs.before.attrs = Attrs(ev.route)     \* still the route that was stored
+              /\ StoredIs(ev.obs.before.attrs, ev.route)     \* still the route that was stored
               /\ ev.obs.oldafter = ev.obs.oldbefore        \* nor is the previous best touched
-              /\ \A i \in DOMAIN ev.obs.oldbefore : ev.obs.oldbefore[i].attrs = Attrs(ev.olds[i])
+              /\ \A i \in DOMAIN ev.obs.oldbefore : StoredIs(ev.obs.oldbefore[i].attrs, ev.olds[i])
 
 (* the per-neighbour AS_PATH options do not keep a route back: what may be sent to an external
    peer - judged on the AS_PATH after replace-peer-as - is sent (Export!MustAdvertise) *)
